@@ -515,6 +515,10 @@ func generate(c *GenCtx) []Op {
 		genSort(c)
 		genStrings(c)
 	case "C03":
+		genSlices(c)
+		genStrings(c)
+		genOverflow(c)
+		genArgs(c)
 		genBytes(c)
 		genRandom(c, "rand", c.n(5000, 100000), 3)
 		genTyped(c, c.n(10000, 200000), 4)
